@@ -129,4 +129,53 @@ Proof.
   destruct (crun s' os) as [s'' rs]. destruct (arun a' os) as [a'' rs']. cbn in *.
   destruct IH as [-> HR'']. split; [reflexivity|exact HR''].
 Qed.
+
+(** what a user can observe after each operation: refusal, current layout, field visible through the grid *)
+Definition cobs (s : cst) : layout * option field :=
+  (cur s, match buf s (di s) with Data g _ => Some g | Junk => None end).
+Definition aobs (a : ast) : layout * option field := (alayout a, Some (afield a)).
+Fixpoint ctrace (s : cst) (os : list op) : list (out * (layout * option field)) :=
+  match os with [] => [] | o :: os' => let (s', r) := cstep s o in (r, cobs s') :: ctrace s' os' end.
+Fixpoint atrace (a : ast) (os : list op) : list (out * (layout * option field)) :=
+  match os with [] => [] | o :: os' => let (a', r) := astep a o in (r, aobs a') :: atrace a' os' end.
+
+Lemma R_obs s a : R s a -> cobs s = aobs a.
+Proof. intros (_ & _ & Hd & Hc & _). unfold cobs, aobs. rewrite Hd, Hc. reflexivity. Qed.
+
+(** every history: after every operation the grid shows exactly what the single array shows *)
+Theorem grid_trace_refines : forall os s a, R s a -> ctrace s os = atrace a os.
+Proof.
+  induction os as [|o os IH]; intros s a HR; cbn [ctrace atrace]; [reflexivity|].
+  pose proof (step_refines s a o HR) as H.
+  destruct (cstep s o) as [s' r]. destruct (astep a o) as [a' r'].
+  destruct H as [-> HR']. rewrite (R_obs s' a' HR'), (IH s' a' HR'). reflexivity.
+Qed.
+
+(** initial state: the grid right after its first fill with field g0 in layout l0 *)
+Definition cinit (g0 : field) (l0 : layout) : cst :=
+  {| buf := fun i => if i =? 0 then Data g0 l0 else Junk; di := 0; bi := 1; si := 2;
+     notSaved := true; savedL := None; cur := l0 |}.
+Definition ainit (g0 : field) (l0 : layout) : ast := {| afield := g0; alayout := l0; asaved := None |}.
+Lemma R_init g0 l0 : R (cinit g0 l0) (ainit g0 l0).
+Proof. unfold R, cinit, ainit; cbn. repeat split; try lia; try reflexivity. Qed.
+
+Theorem grid_refines_from_init g0 l0 os : ctrace (cinit g0 l0) os = atrace (ainit g0 l0) os.
+Proof. apply grid_trace_refines, R_init. Qed.
+
+(** a held save is never clobbered: restore brings back exactly the field and layout present at save time *)
+Theorem save_restore_exact g0 l0 os1 os2 a1 :
+  fst (arun (ainit g0 l0) os1) = a1 -> asaved a1 = None -> hasSave = true ->
+  Forall (fun o => match o with SetLayout _ | Write _ => True | _ => False end) os2 ->
+  aobs (fst (astep (fst (arun (fst (astep a1 Save)) os2)) Restore)) = aobs a1.
+Proof.
+  intros _ Hn Hh Hall. cbn [astep]. rewrite Hn, Hh. cbn [fst].
+  set (a2 := {| afield := afield a1; alayout := alayout a1; asaved := Some (afield a1, alayout a1) |}).
+  assert (H : forall os a, Forall (fun o => match o with SetLayout _ | Write _ => True | _ => False end) os ->
+                asaved (fst (arun a os)) = asaved a).
+  { induction os as [|o os IH]; intros a HF; [reflexivity|]. inversion HF as [|? ? Ho HF']; subst.
+    cbn [arun]. destruct o; try contradiction; cbn [astep];
+    match goal with |- context [arun ?x os] => specialize (IH x HF'); destruct (arun x os); cbn in *; exact IH end. }
+  specialize (H os2 a2 Hall). destruct (fst (arun a2 os2)) as [f l sv] eqn:E. cbn in H. subst sv. cbn.
+  reflexivity.
+Qed.
 End GridSM.
